@@ -275,7 +275,10 @@ def replay(path):
         if isinstance(ty, str) and ty.startswith("func:"):
             args[p] = resolve(cc.options.get("replay_" + p, ty[5:]))
             continue
-        args[p] = build_arg(ty, rec["witness"][p])
+        w = rec["witness"][p]
+        if isinstance(ty, str) and "[" in ty and isinstance(w, dict) and "data" not in w:
+            raise ValueError("witness for %s has no data" % p)
+        args[p] = build_arg(ty, w)
     r = run_contract(rt, cc, func, args)
     rec["replay"] = r
     rec["confirmed"] = bool(r["violated"]) and r["pre_ok"]
@@ -287,3 +290,111 @@ if __name__ == "__main__":
     rec = replay(sys.argv[1])
     print(json.dumps({"confirmed": rec["confirmed"], "replay": rec["replay"]}, default=str)[:2000])
     sys.exit(0 if rec["confirmed"] else 1)
+
+
+# ---------------------------------------------------------------------------------------------------------------
+# bounded contract evaluation: the real function on generated inputs, the same contract evaluated concretely
+# ---------------------------------------------------------------------------------------------------------------
+
+FLOAT_VALUES = [0.0, 1.0, 2.0, -1.0, 3.0, 0.5, 5.0, float("nan")]
+
+
+def _strings_for(cc, p):
+    out = []
+    for cl in cc.requires:
+        for n in ast.walk(cl.expr):
+            if isinstance(n, ast.Compare) and isinstance(n.left, ast.Name) and n.left.id == p:
+                for c in n.comparators:
+                    if isinstance(c, ast.Constant) and isinstance(c.value, str):
+                        out.append(c.value)
+    return out or ["a"]
+
+
+def default_sample(cc, rng):
+    args = {}
+    for p in cc.params:
+        if p in ("self", "cls") and p not in cc.types:
+            continue
+        ty = cc.types[p]
+        if isinstance(ty, str) and ty.startswith("func:"):
+            args[p] = resolve(cc.options.get("replay_" + p, ty[5:]))
+        elif ty == "int":
+            args[p] = int(rng.integers(-3, 9))
+        elif ty == "float":
+            args[p] = float(FLOAT_VALUES[rng.integers(0, len(FLOAT_VALUES))])
+        elif ty == "bool":
+            args[p] = bool(rng.integers(0, 2))
+        elif ty == "str":
+            ch = _strings_for(cc, p)
+            args[p] = ch[rng.integers(0, len(ch))]
+        elif ty in ("u16", "u32", "u8"):
+            args[p] = NP_DT[ty](int(rng.integers(0, 2 ** int(ty[1:]))))
+        elif "[" in ty:
+            base, dims = ty.split("[", 1)
+            dims = dims.rstrip("]")
+            if dims.strip().isdigit():
+                k = int(dims)
+                args[p] = np.array([FLOAT_VALUES[rng.integers(0, len(FLOAT_VALUES))] for _ in range(k)], dtype=NP_DT[base])
+            else:
+                nd = dims.count(":")
+                shape = tuple(int(rng.integers(1, 5)) for _ in range(nd))
+                if base[0] == "f":
+                    a = np.array([FLOAT_VALUES[i] for i in rng.integers(0, len(FLOAT_VALUES), size=int(np.prod(shape)))])
+                    args[p] = a.astype(NP_DT[base]).reshape(shape)
+                elif base == "bool":
+                    args[p] = rng.integers(0, 2, size=shape).astype(bool)
+                else:
+                    args[p] = rng.integers(0, 4, size=shape).astype(NP_DT[base])
+        else:
+            raise ValueError("no default sampler for type %r" % (ty,))
+    return args
+
+
+def fuzz(rt, target, n, seed, contract=None, time_budget=30.0):
+    """-> dict(evaluations, accepted, violations=[...first few...])"""
+    import time as _t
+    cc = rt.contract(contract or target)
+    func = resolve(target)
+    rng = np.random.default_rng(seed)
+    sampler = None
+    key = contract or target
+    if key in rt.db.samplers:
+        fn, f = rt.db.samplers[key]
+        fn = copy.deepcopy(fn)
+        fn.decorator_list = []
+        ns = dict(rt.ns)
+        exec(compile(ast.fix_missing_locations(ast.Module(body=[fn], type_ignores=[])), f, "exec"), ns)
+        sampler = ns[fn.name]
+    out = {"target": target, "evaluations": 0, "accepted": 0, "violations": [], "errors": []}
+    t0 = _t.time()
+    for i in range(n):
+        if _t.time() - t0 > time_budget:
+            break
+        try:
+            args = sampler(rng) if sampler else default_sample(cc, rng)
+        except Exception as e:
+            out["errors"].append("sampler: %r" % (e,))
+            break
+        out["evaluations"] += 1
+        shown = {k: summarize_full(v) for k, v in args.items() if not callable(v)}
+        r = run_contract(rt, cc, func, args)
+        if not r["pre_ok"]:
+            continue
+        out["accepted"] += 1
+        if r["errors"] and len(out["errors"]) < 3:
+            out["errors"] += r["errors"][:2]
+        if r["violated"]:
+            if len(out["violations"]) < 3:
+                out["violations"].append({"inputs": shown, "violated": r["violated"], "raised": r["raised"], "result": r["result"]})
+    return out
+
+
+def summarize_full(v):
+    if isinstance(v, np.ndarray):
+        return {"dtype": str(v.dtype), "shape": list(v.shape),
+                "data": ["nan" if (isinstance(x, float) and x != x) else x for x in v.ravel().tolist()]}
+    if isinstance(v, np.generic):
+        v = v.item()
+    if isinstance(v, float) and v != v:
+        return "nan"
+    return v
